@@ -499,12 +499,10 @@ func checkMd5sumsNames(c *Ctx, r *Report, pa *provAnalysis) {
 						}
 						p := c2.Call.StaticCallee().Params[i]
 						// the callee names its header AsExplicitRelativePath(<that parameter>)
-						forEachInstr(c2.Call.StaticCallee(), func(i3 ssa.Instruction) {
-							if c3, ok := i3.(*ssa.Call); ok && calleeIs(c3, filesPath, "", "AsExplicitRelativePath") && c3.Call.Args[0] == ssa.Value(p) {
-								okName = true
-								why = "the name printed and the member's header name are the same helper applied to the same value"
-							}
-						})
+						if appliesHelperTo(c, c2.Call.StaticCallee(), p, "AsExplicitRelativePath", 2) {
+							okName = true
+							why = "the name printed and the member's header name are the same helper applied to the same value"
+						}
 					}
 				})
 			}
@@ -1079,4 +1077,30 @@ func checkMtreeSizeAgrees(c *Ctx, r *Report, pk *Packager) {
 			fmt.Sprintf("the .MTREE entry takes its size from %s, the tar headers of this function from {%s}: when the two can differ the line describes a member of another length", shorten(e, 80), shorten(joinSorted(hdr), 160)))
 	}
 	r.Floor("F8-size", n, 1)
+}
+
+// appliesHelperTo: f applies the files helper to its parameter p - itself, or
+// by handing p on to a module function that does.
+func appliesHelperTo(c *Ctx, f *ssa.Function, p *ssa.Parameter, helper string, depth int) bool {
+	found := false
+	forEachInstr(f, func(in ssa.Instruction) {
+		call, ok := in.(*ssa.Call)
+		if !ok || found {
+			return
+		}
+		if calleeIs(call, filesPath, "", helper) && call.Call.Args[0] == ssa.Value(p) {
+			found = true
+			return
+		}
+		sc := call.Call.StaticCallee()
+		if sc == nil || !c.isModuleFunc(sc) || depth == 0 {
+			return
+		}
+		for i, a := range call.Call.Args {
+			if a == ssa.Value(p) && i < len(sc.Params) && appliesHelperTo(c, sc, sc.Params[i], helper, depth-1) {
+				found = true
+			}
+		}
+	})
+	return found
 }
